@@ -14,7 +14,7 @@ M = {'F01': 'write_text re-creates', 'F02': 'event count of an hdf5 export', 'F0
      'F25': 'raising apply_filter', 'F26': 'basin_definition_copy handles', 'F28': 'condense_dataset creates',
      'F31': 'lazily cached contours', 'F32': 'manual hierarchy filters survive', 'F34': 'fintlist keeps zeros',
      'F41': 'rectify_metadata takes', 'F52': 'kde_multivariate mixed up', 'F61': 'ml_score data',
-     'F62': 'cached ancillary features as available', 'F35': 'mixed reversed r with un-reversed z'}
+     'F62': 'cached ancillary features as available', 'F35': 'mixed reversed r with un-reversed z', 'F29': 'setup_task_paths refuses', 'F33': 'keeps an empty events group'}
 def h(sub):
     r = [l.split()[0] for l in log if sub in l]
     assert len(r) == 1, (sub, r)
